@@ -63,7 +63,6 @@ def run(out, tier, seed):
     for k, s in enumerate(pick):
         jobs.append({'name': f'il3:{k}', 'chunks': chunk_descs(random.Random(f'C13b:{seed}:{k % 12}'), 3, f'il3:{k}'), 'order': s, 'nstages': 4,
                      'edit_global_at': rng.randrange(0, 9) if k % 2 else None})
-    res = fw.pool_map('harness.interleave', 'run_interleaving', jobs)
     # line-granularity thread schedules
     tjobs = []
     nthr = 64 if tier == 'quick' else 1500
@@ -88,31 +87,34 @@ def run(out, tier, seed):
             job['chunks'] = [multimodal_desc(random.Random(f'C13mm:{seed}:{k}:{j}'), f'thr:{k}:mm{j}') for j in range(n)]
             job['hot'] = ['tmp_seed', 'ncomp_from_gmm', 'agglomerative_cluster', 'clusterize'] if k % 4 == 0 else ['tmp_seed']
         tjobs.append(job)
-    tres = fw.pool_map('harness.interleave', 'run_threads', tjobs, chunksize=1)
-    prs, inexact = [], 0
-    switches = 0
-    for job_pairs in res + tres:
-        for p in job_pairs:
-            if 'worker_error' in p:
-                raise fw.Machinery(p['worker_error'])
-            if 'inexact' in p:
-                inexact += 1
-                continue
-            p['tid'] = len(prs) + 1
-            p['_desc'] = {'note': 'see name'}
-            switches += p.get('switches', 0)
-            prs.append(p)
-    bydesc = {}
-    for j in jobs + tjobs:
-        bydesc[j['name']] = j
-    for p in prs:
-        p['_desc'] = bydesc[p['name'].rsplit(':chunk', 1)[0]]
-    verdicts, stats = fw.judge_pairs(out, prs, ['C13_'])
+    # executed and judged in batches (the recorded pairs of a thorough run do not fit in memory at once)
+    work = [('run_interleaving', j) for j in jobs] + [('run_threads', j) for j in tjobs]
+    npairs, inexact, switches = 0, 0, 0
+    BATCH = 1500
+    for b0 in range(0, len(work), BATCH):
+        part = work[b0:b0 + BATCH]
+        res = fw.pool_map('harness.interleave', 'run_interleaving', [j for f, j in part if f == 'run_interleaving']) + \
+            fw.pool_map('harness.interleave', 'run_threads', [j for f, j in part if f == 'run_threads'], chunksize=1)
+        bydesc = {j['name']: j for _, j in part}
+        prs = []
+        for job_pairs in res:
+            for p in job_pairs:
+                if 'worker_error' in p:
+                    raise fw.Machinery(p['worker_error'])
+                if 'inexact' in p:
+                    inexact += 1
+                    continue
+                p['tid'] = len(prs) + 1
+                p['_desc'] = bydesc[p['name'].rsplit(':chunk', 1)[0]]
+                switches += p.get('switches', 0)
+                prs.append(p)
+        fw.judge_pairs(out, prs, ['C13_'])
+        npairs += len(prs)
     out.samples = [{'name': jobs[0]['name'], 'order': jobs[0]['order']}, {'name': tjobs[1]['name'], 'preempt': tjobs[1]['preempt'][0][:10]}]
     out.assumptions = ['pre-emption only at line events inside ampycloud/*.py (third-party code runs atomically); CPython GIL',
                        'the tracer runs without oracle taps in this check (taps use a module-level sink)']
     cov = {'states': sum(m['states'] for m in mcs), 'transitions': sum(m['transitions'] for m in mcs),
-           'traces_validated_against_impl': 2 * len(prs), 'evaluations': len(jobs) + len(tjobs), 'distinct_nontrivial': len(sch2) + len(pick) + len(tjobs),
+           'traces_validated_against_impl': 2 * npairs, 'evaluations': len(jobs) + len(tjobs), 'distinct_nontrivial': len(sch2) + len(pick) + len(tjobs),
            'rule': 'stage granularity: ALL 252 interleavings of 2 chunks x 5 stages' + (' and ALL 34650 of 3 x 4' if tier != 'quick' else ' and 300 of the 34650 of 3 x 4')
                    + f'; line granularity: {len(tjobs)} thread schedules ({switches} forced thread switches); distinct = distinct schedules',
            'mc': mcs, 'forced_switches': switches, 'inexact_skipped': inexact, 'exhaustive': False, 'checker_cmd': f'./check C13 --tier {tier}'}
